@@ -29,6 +29,7 @@ FAMILIES = {
     "feerecipient": ("grow_feerecipient", "cmd feerecipient sign / fetch / list + app/obolapi fee-recipient client + app/builderregistration.go service (real CLI and real Run loop against a scripted in-process Obol API; fsnotify in real time, timers under synctest): threshold of distinct shares over one message, adoption of the in-progress message, timestamp rules, verified newest-wins merge of file and API overrides, 1 h / 24 h fetch intervals"),
     "sse": ("grow_sse", "app/sse: SSE client framing / reconnect loop (real net/http over net.Pipe in synctest) + listener: head / chain_reorg delivery to subscribers, reorg de-duplication across beacon nodes, delay metrics, gossip-time bookkeeping and trim, malformed events, connection life cycle; 4 findings"),
     "vapirouter": ("grow_vapirouter", "HTTP layer of the validator API (core/validatorapi/router.go): routing table vs proxy, per-endpoint parsing (json / ssz per fork) and response / error writing, events reverse proxy, context propagation; TLC-enumerated request shapes x one alteration on the real NewRouter over httptest"),
+    "roundtimer": ("grow_roundtimer", "core/consensus/timer: round timer policies (increasing / eager double-linear / linear), GetRoundTimerFunc flag selection, per-round deadline memory and doubling, absolute vs relative deadlines, stop / fire-once / leak accounting on real timer objects"),
     "retry": ("grow_retry", "app/retry + core/retry.go: backoff, duty-deadline context, error classes, Shutdown accounting, wired edges"),
 }
 
